@@ -943,7 +943,19 @@ mod pipeline {
         /// to missing output), except for the ones for which
         /// `detached()` was called.  This is equivalent to what the
         /// shell does.
-        pub fn popen(mut self) -> PopenResult<Vec<Popen>> {
+        pub fn popen(self) -> PopenResult<Vec<Popen>> {
+            self.popen_releasing(&mut None)
+        }
+
+        // Like `popen()`, but when a command fails to start, also closes
+        // `release_on_failure` before the commands started so far are
+        // waited for.  `setup_communicate()` passes its end of the shared
+        // stderr pipe: a command blocked writing to that pipe, which
+        // nobody reads yet, would otherwise never exit.
+        fn popen_releasing(
+            mut self,
+            release_on_failure: &mut Option<File>,
+        ) -> PopenResult<Vec<Popen>> {
             self.check_no_stdin_data("popen");
             assert!(self.cmds.len() >= 2);
 
@@ -986,6 +998,7 @@ mod pipeline {
                             ret[i].stdout.take();
                             ret[i].stderr.take();
                         }
+                        release_on_failure.take();
                         return Err(e);
                     }
                 }
@@ -1045,13 +1058,16 @@ mod pipeline {
             self = self.stderr_to(err_write);
 
             let stdin_data = self.stdin_data.take();
-            let mut v = self.stdout(Redirection::Pipe).popen()?;
+            let mut err_read = Some(err_read);
+            let mut v = self
+                .stdout(Redirection::Pipe)
+                .popen_releasing(&mut err_read)?;
             let vlen = v.len();
 
             let comm = communicate::communicate(
                 v[0].stdin.take(),
                 v[vlen - 1].stdout.take(),
-                Some(err_read),
+                err_read,
                 stdin_data,
             );
             Ok((comm, v))
